@@ -149,3 +149,43 @@ def dense_terms(ctx, basis_list, table_ops):
             k = np.kron(k, mats.get(i, np.eye(d)))
         tot = tot + k * f
     return tot
+
+
+# ------------------------------------------------------------------ labelled states
+def subtree_labels(tree, qntot, dup=1):
+    """per basis node (same order as tree.node_list): the list of labels of its bond to the parent = every electron count the subtree
+    can hold (<= qntot), each repeated `dup` times (blocks of size > 1); the root carries [qntot]"""
+    labs = {}
+    for bn in tree.postorder_list():
+        tots = {0}
+        for c in bn.children:
+            tots = {t + int(l) for t in tots for l in set(labs[c])}
+        for b in bn.basis_sets:
+            sig = sorted(set(int(np.asarray(q).reshape(-1)[0]) for q in np.asarray(b.sigmaqn).reshape(b.nbas, -1)))
+            tots = {t + q for t in tots for q in sig}
+        tots = sorted(t for t in tots if t <= qntot)
+        labs[bn] = [qntot] if bn.parent is None else [t for t in tots for _ in range(dup)]
+    return [labs[bn] for bn in tree.node_list]
+
+
+def build_labelled_ttns(ctx, name, tree, qntot, dup=1, kind="real"):
+    """TTNS in the sector qntot (one label component): symbols on the entries the labels allow (children + physical = parent), exact zeros elsewhere"""
+    from renormalizer.tn import TTNS
+    from renormalizer.tn.node import TreeNodeTensor, copy_connection
+    from checks import lib
+    labs = subtree_labels(tree, qntot, dup)
+    idx = {id(bn): i for i, bn in enumerate(tree.node_list)}
+    nodes = []
+    for i, bn in enumerate(tree.node_list):
+        chl = [labs[idx[id(c)]] for c in bn.children]
+        sig = [[int(np.asarray(q).reshape(-1)[0]) for q in np.asarray(b.sigmaqn).reshape(b.nbas, -1)] for b in bn.basis_sets]
+        shape = [len(x) for x in chl] + [len(x) for x in sig] + [len(labs[i])]
+        mask = np.zeros(shape, dtype=bool)
+        for ix in np.ndindex(*shape):
+            tot = sum(chl[k][ix[k]] for k in range(len(chl))) + sum(sig[k][ix[len(chl) + k]] for k in range(len(sig)))
+            mask[ix] = (tot == labs[i][ix[-1]])
+        t = lib.masked_array(ctx, "%s%d" % (name, i), tuple(shape), kind, mask)
+        nodes.append(TreeNodeTensor(t, np.array(labs[i], dtype=int).reshape(-1, 1)))
+    root = copy_connection(tree.node_list, nodes)
+    s = TTNS(tree, root=root)
+    return s
